@@ -1077,6 +1077,18 @@ where
     }}}
     walker!(Dfs, "dfs");
     walker!(DfsPostOrder, "dpo");
+    // Dfs::move_to in the MIDDLE of a traversal: the discovered map is kept, the pending stack is dropped
+    f.insert(format!("dfsmid{}", tag), run(|| json!((0..n).map(|s| {
+        let k = 1 + (s * 5) % 3;
+        let t = (s + 2 + (s * 3) % n.max(1)) % n;
+        let mut w = Dfs::new(g, fwd[s]);
+        let mut pre = vec![];
+        for _ in 0..k { match w.next(g) { Some(x) => pre.push(inv[&x]), None => break } }
+        w.move_to(fwd[t]);
+        let mut post = vec![];
+        while let Some(x) = w.next(g) { post.push(inv[&x]); if post.len() > lim { break; } }
+        json!({"s": s, "t": t, "pre": pre, "post": post})
+    }).collect::<Vec<_>>())));
     // Bfs has no reset/move_to: a fresh walker per start
     f.insert(format!("bfs{}", tag), run(|| json!((0..n).map(|s| {
         let mut w = Bfs::new(g, fwd[s]);
